@@ -377,7 +377,8 @@ def real_history(ctx, h, idx):
             for e in h["events"]:
                 if "d" in e:
                     evs.append({"d": [e["d"][0], e["d"][1], model_tag(h, e["d"])]})
-                elif "q" in e and e.get("fmt", "dict") == fm:
+                elif "q" in e and e.get("fmt", "dict") == fm and e["q"][1] not in ("__nonmapping__", "__unhashable__"):
+                    # (those two are rejected before the registry is consulted: not events of the registry machine)
                     evs.append({"q": e["q"]})
             lines.append({"op": "discr", "subtypes": h["sub"], "supertypes": h["sup"], "events": evs})
     rec = {"h": h, "real": real, "lines": lines, "fmts": fmts}
@@ -421,8 +422,6 @@ def judge_formats(ctx, rec, mf):
             # outside the statement ("unique eligible class"), but the model visits the variants in the order of
             # iter_all_subclasses (Discr.eligible), so model and implementation are still compared
             ctx.bump("ambiguous-tag (model vs implementation only)")
-            if not os.environ.get("VERIF_C12_AMBIG"):
-                continue
         if o.startswith("inst:"):
             _i, c, b = o.split(":")
             exp = f"inst:{c}" if c == b else "error:instance of"
@@ -460,6 +459,10 @@ def judge(ctx, rec, out):
         impl, spec = [], []
         for e in h["events"]:
             if "q" in e:
+                if e["q"][1] in ("__nonmapping__", "__unhashable__"):
+                    impl.append("special")
+                    spec.append("special")
+                    continue
                 a, b = its[e.get("fmt", "dict")]
                 impl.append(next(a))
                 spec.append(next(b))
@@ -476,14 +479,19 @@ def judge(ctx, rec, out):
         root, t = e["q"]
         r, m, s = real[qi], impl[qi], spec[qi]
         qi += 1
-        if h["field"] and s.startswith("inst:") and t not in ("__nonmapping__", "__unhashable__"):
+        if h["field"] and t not in ("__nonmapping__", "__unhashable__"):
             # the chosen class is then deserialized like any class: a required member without a key is reported by
             # MissingField naming it (C05) — also on the very first dispatch to that tag
             par = {c[0]: c[1] for c in seen}
             reqd = {ev["d"][0] for ev in h["events"][:k] if "d" in ev and ev.get("req")}
-            need = [a for a in reversed(chain(par, int(s.split(":")[1]))) if a in reqd and a not in e["fields"]]
-            if need:
-                m = s = f"missingfield:f{need[0]}"
+
+            def _missing(x):
+                if not x.startswith("inst:"):
+                    return x
+                need = [a for a in reversed(chain(par, int(x.split(":")[1]))) if a in reqd and a not in e["fields"]]
+                return f"missingfield:f{need[0]}" if need else x
+
+            m, s = _missing(m), _missing(s)
         if t == "__nonmapping__":
             # ValueError for a non-mapping argument (C05), whatever the registry holds
             m = s = "notadict"
@@ -497,7 +505,7 @@ def judge(ctx, rec, out):
             if sum(1 for c in elig if c[2] == t) > 1:
                 # the statement's "unique eligible class" is undefined here: only model vs implementation
                 ctx.bump("ambiguous-tag (model vs implementation only)")
-                if r != m and os.environ.get("VERIF_C12_AMBIG"):
+                if r != m:
                     ctx.disagreement({"history": {**h, "events": h["events"][: k + 1]}, "event": k}, m, r, "discr (ambiguous tag)")
                     return
                 continue
